@@ -57,7 +57,9 @@ ProvClauses ==
           /\ M("Prov:command", LastRec.command = Command)
           /\ M("Prov:software", LastRec.software = "tsdate")
           /\ M("Prov:valid-record", LastRec.valid)
-          /\ \A k \in DOMAIN WantParams : M("Prov:param:" \o k, ParamOK(LastRec.params, k, WantParams[k])))
+          /\ \A k \in DOMAIN WantParams : M("Prov:param:" \o k, ParamOK(LastRec.params, k, WantParams[k]))
+          (* the record describes *this* call only: no parameter of another command (seed C33-b) *)
+          /\ M("Prov:no-foreign-parameters", DOMAIN LastRec.params \subseteq (DOMAIN WantParams \cup {"command"})))
 ProvErrorClauses ==
     M("Prov:recording-raised", ~Ev.prov.raised)
 
